@@ -42,6 +42,8 @@ def build_cases(tier):
     mixin_ops = {
         "mixin_on_field": 'query MixF { user @mixin(from: ".mixins", import: "MixinA") { id friend @mixin(from: ".mixins", import: "MixinB") { id } } }\n',
         "mixin_twice_on_field": 'query MixT { user @mixin(from: ".mixins", import: "MixinA") @mixin(from: ".mixins", import: "MixinB") @include(if: true) { id } }\n',
+        "mixin_with_alias_and_directives": 'query MixA($v: Boolean = true) { boss: user @include(if: $v) @mixin(from: ".mixins", import: "MixinA") { uid: id pal: friend @mixin(from: ".mixins", import: "MixinB") @skip(if: false) { id } } }\n',
+        "mixin_aliased_in_fragment": 'query MixAF { user { ...FAM } }\nfragment FAM on User { id bestie: friend @mixin(from: ".mixins", import: "MixinB") { fid: id } }\n',
         "mixin_on_fragment_definition": 'query MixD { user { ...FM } }\nfragment FM on User @mixin(from: ".mixins", import: "MixinA") { id name }\n',
         "mixin_inside_fragment_field": 'query MixI { user { ...FI } }\nfragment FI on User { id friend @mixin(from: ".mixins", import: "MixinB") { id } }\n',
         "mixin_field_shared_by_two_ops": 'query MixS1 { user @mixin(from: ".mixins", import: "MixinA") { ...FS } }\nquery MixS2 { userReq { ...FS } }\nfragment FS on User { id friend @mixin(from: ".mixins", import: "MixinB") { id } }\n',
